@@ -598,6 +598,9 @@ namespace Internals {
 namespace Internals {
 // Verification hook (guard TINS_VERIF_HOOKS), see src/pdu.cpp
 extern void (*verif_region_hook)(int, long);
+// Receives one JSON line per traced call of the stateful components; installed at load time
+// when the environment variable TINS_VERIF_TRACE names a file, null otherwise
+extern void (*verif_trace_hook)(const char*);
 } // Internals
 #endif // TINS_VERIF_HOOKS
 
